@@ -96,6 +96,8 @@ func ruleC16R1(r *Run) {
 			switch {
 			case key == "path/filepath.Dir":
 				r.OK("saveFailFile#filename→Dir", x.Pos(), "final name used to compute the target directory")
+			case key == "path/filepath.Base" || key == "path/filepath.Ext" || key == "strings.TrimSuffix" || key == "strings.HasSuffix":
+				r.OK("saveFailFile#filename→"+key, x.Pos(), "final name only inspected by a pure string function")
 			case key == "os.Rename" && len(x.Common().Args) == 2 && p.resolve(x.Common().Args[1]) == ssa.Value(fnPar) && p.resolve(x.Common().Args[0]) != ssa.Value(fnPar):
 				r.OK("saveFailFile#filename→Rename.dst", x.Pos(), "final name used as the rename destination")
 			default:
@@ -290,8 +292,13 @@ func ruleC16R5(r *Run) {
 	}
 	pat, ok := constString(p.resolve(v.create.Arg(1)))
 	if !ok {
-		r.Fail("saveFailFile#temp-pattern", v.create.Instr.Pos(), "the CreateTemp pattern is not a constant: "+p.expr(v.create.Arg(1)))
-		return
+		// a computed pattern: its leading literal decides (the glob match of a discovery name starts at the first character)
+		lead, okLead := p.leadingLiteral(v.create.Arg(1), 0)
+		if !okLead || lead == "" {
+			r.Fail("saveFailFile#temp-pattern", v.create.Instr.Pos(), "the CreateTemp pattern "+p.expr(v.create.Arg(1))+" is computed and its first character cannot be established: a temporary name may match the discovery glob <sanitised test name>-*.fail")
+			return
+		}
+		pat = lead
 	}
 	first := []rune(pat)
 	okFirst := len(first) > 0 && !safeAlphabetRune(first[0]) && first[0] != '*'
@@ -1034,4 +1041,54 @@ func ruleC17R3(r *Run) {
 	for _, cf := range p.callsTo(dc, "checkFailFile") {
 		r.Check("doCheck#checkFailFile.args", cf.Instr.Pos(), p.expr(cf.Arg(0)) == "$tb" && p.expr(cf.Arg(2)) == "$prop", "checkFailFile gets only tb, the file name and prop", "checkFailFile receives "+p.expr(cf.Arg(0))+", "+p.expr(cf.Arg(2)))
 	}
+}
+
+// leadingLiteral returns the constant prefix a string expression is known to start with:
+// constants, left operands of +, constant format prefixes of fmt.Sprintf, and (one level) the
+// common answer of all returns of a package function.
+func (p *Program) leadingLiteral(v ssa.Value, d int) (string, bool) {
+	if d > 4 {
+		return "", false
+	}
+	v = p.resolve(v)
+	switch x := v.(type) {
+	case *ssa.Const:
+		return constString(x)
+	case *ssa.BinOp:
+		if x.Op == token.ADD {
+			l, ok := p.leadingLiteral(x.X, d+1)
+			if ok && l == "" {
+				return p.leadingLiteral(x.Y, d+1)
+			}
+			return l, ok
+		}
+	case *ssa.Call:
+		key := p.calleeKey(x.Common())
+		if key == "fmt.Sprintf" {
+			f, ok := constString(p.resolve(x.Common().Args[0]))
+			if !ok {
+				return "", false
+			}
+			if i := strings.Index(f, "%"); i >= 0 {
+				f = f[:i]
+			}
+			return f, f != ""
+		}
+		if sc := x.Common().StaticCallee(); sc != nil && p.inRapid(sc) && sc.Blocks != nil {
+			res := ""
+			for i, ret := range returnsOf(sc) {
+				l, ok := p.leadingLiteral(p.res(ret, 0), d+1)
+				if !ok || l == "" {
+					return "", false
+				}
+				if i == 0 {
+					res = l[:1]
+				} else if res != l[:1] {
+					return "", false
+				}
+			}
+			return res, res != ""
+		}
+	}
+	return "", false
 }
